@@ -235,7 +235,7 @@ func TestC18(t *testing.T) {
 				}
 				var img []byte
 				var size int64
-				var err error
+				var err, readBroken error
 				func() {
 					defer func() {
 						if p := recover(); p != nil {
@@ -248,9 +248,15 @@ func TestC18(t *testing.T) {
 						return
 					}
 					defer v.Close()
+					opsAtOpen := leaf.Seq()
 					st, _ := v.Stat()
 					size = st.Size()
 					img, err = canonicalImage(v, 1<<20, size+1<<20)
+					if err != nil && i < opsAtOpen {
+						// the fault was consumed while opening, the open succeeded, and now fault-free reads fail
+						readBroken = err
+						err = nil
+					}
 				}()
 				r.Transition(1)
 				key := sprintf("%s fault@%d/%v", desc, i, ferr)
@@ -258,6 +264,11 @@ func TestC18(t *testing.T) {
 				r.Nontrivial(key)
 				if _, isPanic := err.(errPanic); isPanic {
 					r.Violation("C18:fault-panic", sprintf("%s: panic under an I/O error at leaf operation %d: %v", desc, i, err), map[string]any{"tree": tr.Nodes, "ps3": ps3, "fault_at": i})
+					continue
+				}
+				if readBroken != nil {
+					r.Outcome("faulted-open-unreadable")
+					r.Violation("C18:faulted-open-unreadable", sprintf("%s: an open disturbed by %v at leaf operation %d succeeded (size %d) but the image cannot be read without any further fault: %v", desc, ferr, i, size, readBroken), map[string]any{"tree": tr.Nodes, "ps3": ps3, "fault_at": i})
 					continue
 				}
 				if err != nil {
